@@ -84,8 +84,16 @@ pub struct Workload {
     pub domain_size: usize,
 }
 
-fn addressable_script(p: &mut Prng) -> Script {
-    match p.below(5) {
+pub fn addressable_script(p: &mut Prng) -> Script {
+    match p.below(7) {
+        5 | 6 => {
+            // witness program of version 1..16 (OP_1..OP_16) with a 2..40 byte program
+            let ver = p.urange(1, 16) as u8;
+            let len = if p.coin() { 32 } else { p.urange(2, 40) };
+            let mut v = vec![0x50 + ver, len as u8];
+            v.extend(p.bytes(len));
+            Script::from(v)
+        }
         0 => {
             let mut v = vec![0x76, 0xa9, 0x14];
             v.extend(p.bytes(20));
@@ -170,10 +178,17 @@ pub fn build(spec: &CtSpec) -> Workload {
             v = 1 + p.below(1000);
         }
         *t += v;
-        let conf = spec.conf_inputs && p.chance(2, 3);
-        let (abf, vbf) = if conf { (gen::abf(&mut p), gen::vbf(&mut p)) } else { (AssetBlindingFactor::zero(), ValueBlindingFactor::zero()) };
+        // explicit / fully confidential / explicit asset with committed value / committed asset with zero value blinder
+        let kind = if spec.conf_inputs { p.below(6) } else { 0 };
+        let (abf, vbf) = match kind {
+            0 | 1 => (AssetBlindingFactor::zero(), ValueBlindingFactor::zero()),
+            2 => (AssetBlindingFactor::zero(), gen::vbf(&mut p)),
+            3 => (gen::abf(&mut p), ValueBlindingFactor::zero()),
+            _ => (gen::abf(&mut p), gen::vbf(&mut p)),
+        };
+        let conf = kind >= 2;
         let utxo = TxOut {
-            asset: if conf { Asset::new_confidential(secp, asset, abf) } else { Asset::Explicit(asset) },
+            asset: if kind >= 3 { Asset::new_confidential(secp, asset, abf) } else { Asset::Explicit(asset) },
             value: if conf { Value::new_confidential_from_assetid(secp, v, asset, vbf, abf) } else { Value::Explicit(v) },
             nonce: Nonce::Null,
             script_pubkey: addressable_script(&mut p),
@@ -192,17 +207,21 @@ pub fn build(spec: &CtSpec) -> Workload {
         let issue = spec.issuance && p.chance(1, 2);
         let reissue = !issue && spec.reissuance && p.chance(1, 2);
         if issue || reissue {
-            let amt = amount(&mut p, false);
-            let keys = if issue && p.coin() { Some(1 + p.below(5)) } else { None };
+            // amount only / amount and keys / keys only (a token-only issuance)
+            let shape = if issue { p.below(3) } else { 0 };
+            let amt_opt = if shape == 2 { None } else { Some(amount(&mut p, false)) };
+            let keys = if shape >= 1 { Some(1 + p.below(5)) } else { None };
             txin.asset_issuance = AssetIssuance {
                 asset_blinding_nonce: if reissue { *p.pick(&pool().tweaks) } else { gen::ZERO_TWEAK },
                 asset_entropy: p.arr32(),
-                amount: Value::Explicit(amt),
+                amount: amt_opt.map(Value::Explicit).unwrap_or(Value::Null),
                 inflation_keys: keys.map(Value::Explicit).unwrap_or(Value::Null),
             };
-            let (asset_id, token_id) = txin.issuance_ids();
-            *totals.entry(asset_id).or_insert(0) += amt;
-            secrets.push(TxOutSecrets::new(asset_id, AssetBlindingFactor::zero(), amt, ValueBlindingFactor::zero()));
+            let (asset_id, token_id) = issuance_ids_ref(&txin);
+            if let Some(amt) = amt_opt {
+                *totals.entry(asset_id).or_insert(0) += amt;
+                secrets.push(TxOutSecrets::new(asset_id, AssetBlindingFactor::zero(), amt, ValueBlindingFactor::zero()));
+            }
             if let Some(kv) = keys {
                 *totals.entry(token_id).or_insert(0) += kv;
                 secrets.push(TxOutSecrets::new(token_id, AssetBlindingFactor::zero(), kv, ValueBlindingFactor::zero()));
@@ -263,6 +282,28 @@ pub fn build(spec: &CtSpec) -> Workload {
     }
     let tx = Transaction { version: 2, lock_time: LockTime::ZERO, input: inputs, output };
     Workload { tx, spent, secrets, receivers, originals, domain_size }
+}
+
+/// Asset and token id of an input's issuance, derived from the definition (entropy from the plain outpoint
+/// and contract hash for a new issuance, carried entropy for a reissuance; token flavour by whether the
+/// issuance amount is blinded) rather than through TxIn::issuance_ids.
+pub fn issuance_ids_ref(txin: &TxIn) -> (AssetId, AssetId) {
+    use elements::{AssetEntropy, ContractHash};
+    let iss = &txin.asset_issuance;
+    let entropy = if iss.asset_blinding_nonce == gen::ZERO_TWEAK {
+        AssetId::generate_asset_entropy(txin.previous_output, ContractHash::from_byte_array(iss.asset_entropy))
+    } else {
+        AssetEntropy::from_byte_array(iss.asset_entropy)
+    };
+    let blinded = matches!(iss.amount, Value::Confidential(_));
+    (AssetId::from_entropy(entropy), AssetId::reissuance_token_from_entropy(entropy, blinded))
+}
+
+/// Elements' IsUnspendable, written from its definition: OP_RETURN first, or longer than the maximal
+/// script size of 10 000 bytes; plus the empty script of a fee output.
+pub fn unspendable_ref(s: &Script) -> bool {
+    let b = s.as_bytes();
+    b.is_empty() || b[0] == 0x6a || b.len() > 10_000
 }
 
 #[derive(Clone, Debug, Serialize, Deserialize, PartialEq, Eq)]
@@ -357,6 +398,8 @@ pub fn apply_tamper(t: &Tamper, tx: &mut Transaction, spent: &mut Vec<TxOut>, do
     let pl = pool();
     let conf_outs: Vec<usize> = (0..tx.output.len()).filter(|i| tx.output[*i].value.is_confidential() && tx.output[*i].asset.is_confidential()).collect();
     let expl_outs: Vec<usize> = (0..tx.output.len()).filter(|i| tx.output[*i].value.is_explicit() && tx.output[*i].asset.is_explicit()).collect();
+    // outputs whose asset is confidential (including zero-value unspendable ones): surjection / asset tampers
+    let asset_conf_outs: Vec<usize> = (0..tx.output.len()).filter(|i| tx.output[*i].asset.is_confidential()).collect();
     let pick = |v: &Vec<usize>, k: usize| if v.is_empty() { None } else { Some(v[k % v.len()]) };
     let pick2 = |v: &Vec<usize>, a: usize, b: usize| {
         if v.len() < 2 {
@@ -394,7 +437,7 @@ pub fn apply_tamper(t: &Tamper, tx: &mut Transaction, spent: &mut Vec<TxOut>, do
             true
         }
         Tamper::AssetCommReplace { out, pool } => {
-            let Some(i) = pick(&conf_outs, *out) else { return false };
+            let Some(i) = pick(&asset_conf_outs, *out) else { return false };
             let g = pl.gens[*pool % pl.gens.len()];
             if Asset::Confidential(g) == tx.output[i].asset {
                 return false;
@@ -457,11 +500,11 @@ pub fn apply_tamper(t: &Tamper, tx: &mut Transaction, spent: &mut Vec<TxOut>, do
             }
         }
         Tamper::SurjectionRemove { out } => {
-            let Some(i) = pick(&conf_outs, *out) else { return false };
+            let Some(i) = pick(&asset_conf_outs, *out) else { return false };
             tx.output[i].witness.surjection_proof.take().is_some()
         }
         Tamper::SurjectionSwap { a, b } => {
-            let Some((x, y)) = pick2(&conf_outs, *a, *b) else { return false };
+            let Some((x, y)) = pick2(&asset_conf_outs, *a, *b) else { return false };
             if tx.output[x].witness.surjection_proof == tx.output[y].witness.surjection_proof {
                 return false;
             }
@@ -471,12 +514,12 @@ pub fn apply_tamper(t: &Tamper, tx: &mut Transaction, spent: &mut Vec<TxOut>, do
             true
         }
         Tamper::SurjectionForeign { out, pool } => {
-            let Some(i) = pick(&conf_outs, *out) else { return false };
+            let Some(i) = pick(&asset_conf_outs, *out) else { return false };
             tx.output[i].witness.surjection_proof = Some(Box::new(pl.surjproofs[*pool % pl.surjproofs.len()].clone()));
             true
         }
         Tamper::SurjectionCorrupt { out, at_1024, bit } => {
-            let Some(i) = pick(&conf_outs, *out) else { return false };
+            let Some(i) = pick(&asset_conf_outs, *out) else { return false };
             let Some(sp) = &tx.output[i].witness.surjection_proof else { return false };
             let mut b = elements::secp256k1_zkp::SurjectionProof::serialize(sp);
             let pos = (b.len() as u64 * *at_1024 as u64 / 1024) as usize;
@@ -592,6 +635,10 @@ pub struct Case {
     pub explicit: Option<ExplicitSpec>,
     /// hostile RNG scenario: a clean surjection failure is an admissible outcome when the domain exceeds 3
     pub hostile: bool,
+    /// before tampering, the relay's base transaction also carries a zero-value OP_RETURN output whose asset
+    /// is confidential (with a surjection proof): it takes no part in the balance but its proof must hold
+    #[serde(default)]
+    pub zero_conf_asset_output: bool,
 }
 
 pub struct CtWorld;
@@ -627,11 +674,19 @@ fn explicit_case(ctx: &mut Ctx, e: &ExplicitSpec) {
         spent.push(TxOut { asset: Asset::Explicit(a), value: Value::Explicit(v), nonce: Nonce::Null, script_pubkey: addressable_script(&mut p), witness: TxOutWitness::default() });
         let mut txin = TxIn { previous_output: OutPoint::new(gen::txid(&mut p), p.below(4) as u32), ..Default::default() };
         if e.issuance && p.coin() {
+            let shape = p.below(3);
             let amt = amount(&mut p, false);
-            txin.asset_issuance = AssetIssuance { asset_blinding_nonce: gen::ZERO_TWEAK, asset_entropy: p.arr32(), amount: Value::Explicit(amt), inflation_keys: if p.coin() { Value::Explicit(3) } else { Value::Null } };
-            let (aid, tid) = txin.issuance_ids();
-            *totals.entry(aid).or_insert(0) += amt as u128;
-            if txin.asset_issuance.inflation_keys.is_explicit() {
+            txin.asset_issuance = AssetIssuance {
+                asset_blinding_nonce: if p.chance(1, 4) { *p.pick(&pool().tweaks) } else { gen::ZERO_TWEAK },
+                asset_entropy: p.arr32(),
+                amount: if shape == 2 { Value::Null } else { Value::Explicit(amt) },
+                inflation_keys: if shape >= 1 { Value::Explicit(3) } else { Value::Null },
+            };
+            let (aid, tid) = issuance_ids_ref(&txin);
+            if shape != 2 {
+                *totals.entry(aid).or_insert(0) += amt as u128;
+            }
+            if shape >= 1 {
                 *totals.entry(tid).or_insert(0) += 3;
             }
         }
@@ -654,12 +709,33 @@ fn explicit_case(ctx: &mut Ctx, e: &ExplicitSpec) {
             }
         }
     }
+    // scripts around the maximal script size: 10 000 bytes is spendable, 10 001 is not
+    let boundary = |p: &mut Prng, len: usize| {
+        let mut b = p.bytes(len);
+        if !b.is_empty() && b[0] == 0x6a {
+            b[0] = 0x51;
+        }
+        Script::from(b)
+    };
     if e.zero_unspendable {
-        let spk = if p.coin() { Script::new_op_return(&p.bytes(5)) } else { Script::new() };
+        let spk = match p.below(4) {
+            0 => Script::new_op_return(&p.bytes(5)),
+            1 => Script::new(),
+            2 => boundary(&mut p, 10_001),
+            _ => {
+                let extra = p.usize_below(50);
+                boundary(&mut p, 10_001 + extra)
+            }
+        };
         output.push(TxOut { asset: Asset::Explicit(*p.pick(&assets)), value: Value::Explicit(0), nonce: Nonce::Null, script_pubkey: spk, witness: TxOutWitness::default() });
     }
     if e.zero_spendable {
-        output.push(TxOut { asset: Asset::Explicit(*p.pick(&assets)), value: Value::Explicit(0), nonce: Nonce::Null, script_pubkey: addressable_script(&mut p), witness: TxOutWitness::default() });
+        let spk = match p.below(4) {
+            0 => boundary(&mut p, 10_000),
+            1 => boundary(&mut p, 9_999),
+            _ => addressable_script(&mut p),
+        };
+        output.push(TxOut { asset: Asset::Explicit(*p.pick(&assets)), value: Value::Explicit(0), nonce: Nonce::Null, script_pubkey: spk, witness: TxOutWitness::default() });
     }
     p.shuffle(&mut output);
     match e.imbalance {
@@ -686,8 +762,8 @@ fn explicit_case(ctx: &mut Ctx, e: &ExplicitSpec) {
     let mut outs: BTreeMap<AssetId, u128> = BTreeMap::new();
     for (i, s) in spent.iter().enumerate() {
         *ins.entry(s.asset.explicit().unwrap()).or_insert(0) += s.value.explicit().unwrap() as u128;
-        if tx.input[i].has_issuance() {
-            let (aid, tid) = tx.input[i].issuance_ids();
+        if !(tx.input[i].asset_issuance.amount.is_null() && tx.input[i].asset_issuance.inflation_keys.is_null()) {
+            let (aid, tid) = issuance_ids_ref(&tx.input[i]);
             if let Some(v) = tx.input[i].asset_issuance.amount.explicit() {
                 *ins.entry(aid).or_insert(0) += v as u128;
             }
@@ -700,7 +776,7 @@ fn explicit_case(ctx: &mut Ctx, e: &ExplicitSpec) {
     for o in &tx.output {
         let v = o.value.explicit().unwrap();
         if v == 0 {
-            if !o.script_pubkey.is_provably_unspendable() {
+            if !unspendable_ref(&o.script_pubkey) {
                 zero_ok = false;
             }
             continue;
@@ -735,12 +811,14 @@ impl World for CtWorld {
             tampers: vec![],
             explicit: None,
             hostile: false,
+            zero_conf_asset_output: false,
         };
         match scenario {
             "blind" => {}
             "tamper" => {
                 let k = p.urange(3, 8);
                 case.tampers = (0..k).map(|_| Tamper::draw(p)).collect();
+                case.zero_conf_asset_output = p.chance(1, 3);
             }
             "hostile-rng" => {
                 case.hostile = true;
@@ -851,6 +929,23 @@ impl World for CtWorld {
         // ---- the relay tampers (one fault per delivery)
         if !verified {
             return;
+        }
+        let mut rx = rx;
+        if case.zero_conf_asset_output {
+            let mut q = Prng::from_u64(case.spec.seed ^ 0x2e70);
+            let asset = w.secrets[q.usize_below(w.secrets.len())].asset;
+            let abf = gen::abf(&mut q);
+            let mut rng2 = SimRng::new(&RngPlan { seed: case.rng.seed ^ 0x51, personality: Personality::Uniform });
+            if let Some(Ok((asset_comm, proof))) = ctx.call("Asset::blind", 0, || Asset::Explicit(asset).blind(&mut rng2, secp, abf, &w.secrets)) {
+                rx.output.push(TxOut { asset: asset_comm, value: Value::Explicit(0), nonce: Nonce::Null, script_pubkey: Script::new_op_return(&q.bytes(6)), witness: TxOutWitness { surjection_proof: Some(Box::new(proof)), rangeproof: None } });
+                ctx.sig("zero_conf_asset_output");
+                let base = ctx.call("verify_tx_amt_proofs", 0, || rx.verify_tx_amt_proofs(secp, &w.spent));
+                if let Some(base) = base {
+                    if !ctx.check(base.is_ok(), "C05.base", "zero-value-conf-asset", || format!("a verifying transaction plus a zero-value OP_RETURN output with a valid confidential asset does not verify: {:?}", base)) {
+                        return;
+                    }
+                }
+            }
         }
         for t in &case.tampers {
             let mut ttx = rx.clone();
